@@ -162,9 +162,56 @@ def giant_text(ctx, t, form):
     return "".join(parts)
 
 
+def flat(tree):
+    """token sequence (with parentheses) of a nested list, computed without recursion (deep structures)"""
+    out, stack = [], [iter([tree])]
+    while stack:
+        try:
+            x = next(stack[-1])
+        except StopIteration:
+            stack.pop()
+            if stack:
+                out.append(")")
+            continue
+        if isinstance(x, list):
+            out.append("(")
+            stack.append(iter(x))
+        else:
+            out.append(x)
+    return out
+
+
+def deep_input(ctx, t):
+    """a balanced text nested deeper than the interpreter's recursion limit: the reader may give up with an error (a
+    resource limit), but if it answers, the answer is the structure of the text"""
+    depth = [1100, 1500, 3000, 6000][t.draw(4)]
+    unit = ["(and (p a) ", "(a ", "(x y (z) "][t.draw(3)]
+    text = unit * depth + "(leaf)" + ")" * depth
+    want = sexpr.tokens(text)
+    path = ctx.rundir / "deep.pddl"
+    fs.write_real(path, text)
+    ctx.probes["deep_input"] += 1
+    ctx.nontrivial = True
+    for kw, label in (({"file_path": path}, "file"), ({"pddl_str": text}, "string")):
+        try:
+            got = L().PDDLTokenizer(**kw).parse()
+        except BaseException as e:  # RecursionError, MemoryError ...: the reader gave up
+            if isinstance(e, (KeyboardInterrupt, SystemExit)):
+                raise
+            ctx.probes["deep_input_rejected"] += 1
+            continue
+        if not isinstance(got, list) or flat(got)[1:-1] != want[1:-1] and flat(got) != want:
+            raise Violation("C11/deep-text-misread", f"PDDLTokenizer({label}).parse",
+                            f"balanced text nested {depth} deep was neither read completely nor rejected; got "
+                            f"{short(flat(got)[:12] if isinstance(got, list) else got, 120)}")
+        ctx.probes["deep_input_read"] += 1
+
+
 def run(ctx):
     t = ctx.s("workload")
     f = ctx.s("fs")
+    if ctx.seed % 3000 == 1234:
+        return deep_input(ctx, t)
     tree = gen_tree(t, 1 + t.draw(5), [5 + t.draw(36)])
     text, flags = layout(render(tree), t)
     big = ctx.s("cfg").draw(6000 if ctx.tier == "quick" else 2500)
